@@ -18,10 +18,10 @@ import (
 	"syscall"
 
 	"github.com/labstack/echo/v4"
+	"k3l.io/go-eigentrust/pkg/api/openapi"
 	computepb "k3l.io/go-eigentrust/pkg/api/pb/compute"
 	tmpb "k3l.io/go-eigentrust/pkg/api/pb/trustmatrix"
 	tvpb "k3l.io/go-eigentrust/pkg/api/pb/trustvector"
-	"k3l.io/go-eigentrust/pkg/api/openapi"
 	"k3l.io/go-eigentrust/pkg/basic"
 	oapiserver "k3l.io/go-eigentrust/pkg/basic/server/oapi"
 )
